@@ -47,3 +47,7 @@ struct IntegratorRep {
 extern int  ghost_threw;        /* exception plumbing: set where the real code throws */
 extern unsigned ghost_steps;    /* number of takeOneStep() calls (incremented by its contract; unsigned: wraps legally) */
 extern int  ghost_stepped;      /* 1 once takeOneStep() was called by the current stepTo() */
+
+/* abstraction of a symbolic double addition where only congruence is needed (Integrator::stepBy) */
+double __CPROVER_uninterpreted_add(double, double);
+#define VF_ADD(a, b) __CPROVER_uninterpreted_add((a), (b))
